@@ -6,6 +6,7 @@ package harness
 import (
 	"errors"
 	"fmt"
+	"math/big"
 	"os"
 	"sort"
 	"strconv"
@@ -526,6 +527,29 @@ func (h *coreH) exec(line string) string {
 		}
 		_, err := h.f.Deliver(&rollapptypes.MsgTransferOwnership{CurrentOwner: by.String(), NewOwner: newOwner, RollappId: id})
 		return okErr(err)
+	case "set_seq_params":
+		// x/sequencer MsgUpdateParams (the whole parameter set is replaced)
+		auth := h.gov
+		if m["auth"] != "gov" {
+			_, x := h.actor(m["auth"])
+			auth = x.String()
+		}
+		sp := app.SequencerKeeper.GetParams(h.f.Ctx)
+		mul, ok := new(big.Int).SetString(m["mul"], 10)
+		if !ok {
+			return "bad-op"
+		}
+		sp.NoticePeriod = time.Duration(atoi(m["notice"]))
+		sp.DishonorKickThreshold = atou(m["kick"])
+		sp.LivenessSlashMinMultiplier = math.LegacyNewDecFromBigIntWithPrec(mul, 18)
+		sp.LivenessSlashMinAbsolute = sdk.NewCoin(coreDenom, math.NewIntFromUint64(atou(m["abs"])))
+		sp.DishonorStateUpdate = atou(m["dsu"])
+		sp.DishonorLiveness = atou(m["dl"])
+		_, err := h.f.Deliver(&seqtypes.MsgUpdateParams{Authority: auth, Params: sp})
+		if err == nil { // the monitors and the generator read the parameters in force from h.p
+			h.p.NoticeNs, h.p.Kick, h.p.MulRaw, h.p.Abs, h.p.DSU, h.p.DL = atoi(m["notice"]), atou(m["kick"]), mul.Int64(), atou(m["abs"]), atou(m["dsu"]), atou(m["dl"])
+		}
+		return okErr(err)
 	case "punish":
 		// the standalone governance PunishSequencerProposal, delivered the way an executed proposal
 		// delivers it: x/gov's MsgExecLegacyContent -> legacy router -> x/sequencer's proposal handler
@@ -674,6 +698,7 @@ type coreSnap struct {
 	Bal    []math.Int
 	MBal   []math.Int // balances of the blocked module accounts m0.. (monitors only, not part of the observation)
 	Supply math.Int
+	SP     string   // x/sequencer params in force: notice,kick,mul(raw),abs,dsu,dl
 	Pk     []corePk // pending delayed packets of the rollapps
 }
 
@@ -810,6 +835,18 @@ func (h *coreH) snapshot() *coreSnap {
 		s.MBal = append(s.MBal, app.BankKeeper.GetBalance(ctx, a, coreDenom).Amount)
 	}
 	s.Supply = app.BankKeeper.GetSupply(ctx, coreDenom).Amount
+	{
+		sp := app.SequencerKeeper.GetParams(ctx)
+		abs := "0"
+		if sp.LivenessSlashMinAbsolute.Denom == coreDenom && !sp.LivenessSlashMinAbsolute.Amount.IsNil() {
+			abs = sp.LivenessSlashMinAbsolute.Amount.String()
+		}
+		mul := "0"
+		if !sp.LivenessSlashMinMultiplier.IsNil() {
+			mul = sp.LivenessSlashMinMultiplier.BigInt().String()
+		}
+		s.SP = fmt.Sprintf("%d,%d,%s,%s,%d,%d", int64(sp.NoticePeriod), sp.DishonorKickThreshold, mul, abs, sp.DishonorStateUpdate, sp.DishonorLiveness)
+	}
 	for _, pk := range app.DelayedAckKeeper.ListRollappPackets(ctx, datypes.ByStatus(commontypes.Status_PENDING)) {
 		ri, ok := h.raIdx[pk.RollappId]
 		if !ok {
@@ -934,6 +971,7 @@ func (s *coreSnap) render(res string) string {
 		}
 		sb.WriteString(b.String())
 	}
+	sb.WriteString(" | sp=" + s.SP)
 	return sb.String()
 }
 
